@@ -275,8 +275,12 @@ class Export(object):
             # Define a new measurement identifier, so that we are not running
             # into any problems with basins being defined for filtered data.
             ds_run_id = ds.get_measurement_identifier()
-            random_ap = str(uuid.uuid4())[:4]
-            meta["experiment"]["run identifier"] = f"{ds_run_id}-{random_ap}"
+            if ds_run_id is not None:
+                # (Without an identifier of the original measurement, a new
+                # identifier would only make its basin unusable.)
+                random_ap = str(uuid.uuid4())[:4]
+                meta["experiment"]["run identifier"] = \
+                    f"{ds_run_id}-{random_ap}"
 
         if filtered:
             filter_arr = ds.filter.all
